@@ -176,6 +176,20 @@ def scenarios(sim, cls):
                     add(f's({",".join(a + ":" + k for a, k in zip(ats, kinds))})',
                         ANode(sim, cls, name='s', args=args),
                         routines={'s': r})
+        # whole arrays go by reference: the element types must be equal
+        for at, pt in itertools.product(TY, TY):
+            r = ARoutine('s', 'sub', [('p0', AType(pt, is_array=True,
+                                                    nodim=True))])
+            ap = ANode(sim, 'ArrayPass', identifier='a',
+                       type=AType(at, is_array=True))
+            sc = Scenario(cls, f's({at}() -> {pt}())',
+                          ANode(sim, cls, name='s', args=[ap]),
+                          routines={'s': r})
+            if at == pt:
+                sc.must_admit = True
+            else:
+                sc.must_reject = True
+            out.append(sc)
     elif cls == 'ColorStmt':
         for f, b, bd in itertools.product([None] + list(TY), repeat=3):
             add(f'{f},{b},{bd}', ANode(
@@ -333,11 +347,14 @@ def scenarios(sim, cls):
         sep = lambda s: ANode(sim, 'PrintSep', sep=s)
         shapes = [[], ['e'], ['e', ';'], ['e', ',', 'e'], [';'],
                   [',', ','], ['e', ';', 'e', ';'], ['e', ';', ',', 'e'],
-                  ['e', ',', ','], [';', ';'], [',', ';', 'e']]
+                  ['e', ',', ','], [';', ';'], [',', ';', 'e'], ['lit0'], ['e', ';', 'lit0'],
+                  ['e', ',', 'lit0'], ['lit0', ';', 'e']]
         for fmt in [None] + list(TY):
             for shape in shapes:
                 for t in TY:
-                    items = [E(t) if x == 'e' else sep(x) for x in shape]
+                    items = [E(t) if x == 'e' else
+                             ANode(sim, 'StringLiteral', value='')
+                             if x == 'lit0' else sep(x) for x in shape]
                     add(f'using={fmt} {shape} {t}',
                         ANode(sim, cls, items=items,
                               format_string=E(fmt) if fmt else None))
